@@ -5,7 +5,7 @@ CONSTANTS DefaultMaxDepth = 20
   FixF6 = TRUE
   FixEq = TRUE
   FixF5 = TRUE
-  MaxNodes = 3
+  MaxNodes = 4
   MaxHeight = 3
   Decos = {0}
   MDs = {0}
